@@ -214,7 +214,8 @@ def engine_outcome(kind, rs):
     if kind in ("count", "ctas"):
         return ("count", int(r["rows"][0][0]))
     if kind == "show":
-        return ("val", r["rows"][0][0])
+        v = r["rows"][0][0]
+        return ("val", v[2:] if isinstance(v, str) and v.startswith("s:") else v)
     return ("rows", bag(r["rows"]))
 
 
